@@ -1265,8 +1265,14 @@ Situations(pre, e, post) ==
     RewardSituations(pre, e, post),
     OtherSituations(pre, e, post) }
 TradePending(pre, e, q) == q \in DOMAIN pre.oracle /\ e.now \prec pre.oracle[q].tradeEnableTs
+\* a price limit that is not on the trade side of the pool price, yet inside the price interval of the current tick
+WrongSideNear(pre, e) ==
+  LET p == APool(e) sp == pre.pool[p].sqrtPrice lim == e.args.limit t == pre.pool[p].tick IN
+  /\ ~(lim \doteq 0) /\ Has(pre.prices, ToString(t)) /\ Has(pre.prices, ToString(t + 1))
+  /\ IF e.args.aToB THEN sp \preceq lim /\ lim \prec P(pre, t + 1) ELSE P(pre, t) \prec lim /\ lim \preceq sp
 FailSituations(pre, e) ==
   {"fail." \o e.name, "err." \o ToString(e.err)} \cup Sit("fail.probe", e.probe) \cup Sit("fail.panic", e.panic)
+  \cup Sit("refused.swap_limit_on_wrong_side_inside_current_tick", IsSwapName(e.name) /\ Has(e.args, "pool") /\ APool(e) \in DOMAIN pre.pool /\ WrongSideNear(pre, e))
   \cup Sit("refused.swap_before_trade_enabled", IsSwapName(e.name) /\ Has(e.args, "pool") /\ TradePending(pre, e, APool(e)))
   \cup Sit("refused.twohop_first_leg_before_trade_enabled", e.name \in {"two_hop_swap", "two_hop_swap_v2"} /\ TradePending(pre, e, e.slots.whirlpool_one.id))
   \cup Sit("refused.twohop_second_leg_before_trade_enabled", e.name \in {"two_hop_swap", "two_hop_swap_v2"} /\ TradePending(pre, e, e.slots.whirlpool_two.id))
@@ -1347,8 +1353,125 @@ C20Liquidity(pre, e, post) ==
      /\ Sub("same_token_amounts", u.estA \doteq dA /\ u.estB \doteq dB)
      /\ Sub("bound_on_safe_side", IF inc THEN u.estA \preceq u.boundA /\ u.estB \preceq u.boundB ELSE u.boundA \preceq u.estA /\ u.boundB \preceq u.estB)
 
+(* ---------------------------------------------------------------------------------------------------
+   The WIDER specification: behaviour of the program that none of the listed properties speaks about, specified and
+   bound to the code all the same.  A deviation from one of these predicates is NOT a violation of the property a check
+   decides - it is tallied (register 11: evaluations, deviations, first deviating line), reported by the runner in the
+   evidence and on a NOTE line, and never changes a verdict.
+
+   (W1) The non-transferable-position requirement.  A token badge carries one attribute, "positions of pools over this
+        mint must be non-transferable".  A pool created by initialize_pool_v2 / initialize_pool_with_adaptive_fee copies
+        the attribute of the badges of its two mints (of ITS config) into bit 0 of its control flags, once and for all -
+        changing the attribute later does not change the pool; a v1 pool never has it.  A pool whose third reward slot
+        still carries an authority (old account layout, not yet migrated) has no control flags at all.  While the
+        requirement holds, positions can only be opened with open_position_with_token_extensions, whose position mint
+        then carries the NonTransferable extension (type 9) - and carries it in no other case; such a position can be
+        locked but, being non-transferable, not handed over.
+   (W2) PoolInitialized / PositionOpened events carry exactly what was created.
+   (W3) Position bundles: created empty, with exactly one bundle token, held by the named owner, without mint authority.
+   (W4) migrate_repurpose_reward_authority_space: possible exactly once per old-layout pool; it clears the two repurposed
+        fields (control flags become 0, the requirement does not spring into existence) and changes nothing else.       *)
+Wider(name, c) ==
+  LET f   == TLCGet(11)
+      ok  == c
+      old == IF name \in DOMAIN f THEN f[name] ELSE [evaluated |-> 0, deviations |-> 0, first |-> 0]
+      new == [evaluated |-> old.evaluated + 1, deviations |-> old.deviations + (IF ok THEN 0 ELSE 1),
+              first |-> IF ok \/ old.first # 0 THEN old.first ELSE l]
+  IN TLCSet(11, [n \in DOMAIN f \cup {name} |-> IF n = name THEN new ELSE f[n]])
+
+NTAttr(s, c, m) == \E b \in DOMAIN s.badge : s.badge[b].cfg = c /\ s.badge[b].mint = m /\ s.badge[b].nonTransferablePos
+NTRequired(s, p) == s.pool[p].ext2zero /\ s.pool[p].flags % 2 = 1
+EvOf(e, name) == {i \in DOMAIN e.events : e.events[i].ev = name}
+MintExts(s, m) == {s.mint[m].exts[i] : i \in DOMAIN s.mint[m].exts}
+
+(* (W5) Rent escrow of dynamic tick arrays.  A dynamic array grows by 112 bytes per initialized tick; the rent of those bytes
+        is not paid by whoever happens to initialize the tick: every position is opened with the rent of TWO ticks on top of its own
+        (open_* / reset_position_range collect it from the funder), hands one tick's rent to each DYNAMIC array holding one of its
+        bounds when it first receives liquidity, and takes it back when its liquidity returns to zero - whether or not the tick was
+        (de)initialized by that change.  Hence, in every state:
+          lamports(position) = rent(216 bytes) + tick rent x (2 - number of its bounds lying in dynamic arrays, if it has liquidity)
+          lamports(dynamic array) = rent(148 bytes) + tick rent x number of (position with liquidity, bound) pairs it holds
+        and the array is rent exempt at its current length, since a tick is initialized only while some such pair refers to it. *)
+TickRent == 779520                       \* 112 bytes x 3480 lamports per byte-year x 2 years
+RentMin(len) == (128 + len) * 6960
+DynAt(s, p, t) == IF \E a \in DOMAIN s.ta : s.ta[a].pool = p /\ s.ta[a].dyn /\ Holds(s, a, p, t) THEN 1 ELSE 0
+EscrowIn(s, a) ==
+  LET p == s.ta[a].pool
+      K == {k \in DOMAIN s.pos : s.pos[k].pool = p /\ ~(s.pos[k].liq \doteq 0)}
+  IN Cardinality({k \in K : Holds(s, a, p, s.pos[k].lo)}) + Cardinality({k \in K : Holds(s, a, p, s.pos[k].up)})
+W5State(s) ==
+  /\ Wider("W5.position_holds_rent_of_its_idle_ticks",
+           \A k \in DOMAIN s.pos : LET x == s.pos[k] IN
+              (x.pool \in DOMAIN s.pool) =>
+                 x.lamports \doteq (RentMin(216) + TickRent * (2 - (IF x.liq \doteq 0 THEN 0 ELSE DynAt(s, x.pool, x.lo) + DynAt(s, x.pool, x.up)))))
+  /\ Wider("W5.dynamic_array_holds_rent_of_ticks_in_use",
+           \A a \in DOMAIN s.ta : (s.ta[a].dyn /\ s.ta[a].pool \in DOMAIN s.pool) => s.ta[a].lamports \doteq (RentMin(148) + TickRent * EscrowIn(s, a)))
+  /\ Wider("W5.tick_arrays_rent_exempt", \A a \in DOMAIN s.ta : RentMin(s.ta[a].len) \preceq s.ta[a].lamports)
+
+WiderOK(pre, e, post) ==
+  /\ IF e.name \in {"initialize_pool", "initialize_pool_v2", "initialize_pool_with_adaptive_fee"}
+     THEN LET q == Id(e, "whirlpool") c == Id(e, "whirlpools_config") r == post.pool[q]
+              want == e.name # "initialize_pool" /\ (NTAttr(pre, c, Id(e, "token_mint_a")) \/ NTAttr(pre, c, Id(e, "token_mint_b")))
+          IN /\ Wider("W1.pool_inherits_requirement_from_badges", r.ext2zero /\ r.ext1rest /\ r.flags = (IF want THEN 1 ELSE 0))
+             /\ Wider("W2.pool_initialized_event",
+                      LET E == EvOf(e, "PoolInitialized") IN
+                      /\ Cardinality(E) = 1
+                      /\ LET v == e.events[CHOOSE i \in E : TRUE] IN
+                         /\ v.pool = q /\ v.cfg = c /\ v.mintA = r.mintA /\ v.mintB = r.mintB /\ v.spacing = r.spacing
+                         /\ v.sqrtPrice \doteq r.sqrtPrice
+                         /\ v.progA = (IF pre.mint[r.mintA].prog = "spl" THEN "prog:token" ELSE "prog:token2022")
+                         /\ v.progB = (IF pre.mint[r.mintB].prog = "spl" THEN "prog:token" ELSE "prog:token2022")
+                         /\ v.decimalsA = pre.mint[r.mintA].decimals /\ v.decimalsB = pre.mint[r.mintB].decimals)
+     ELSE TRUE
+  /\ IF e.name \in OpenNames
+     THEN LET p == Id(e, "whirlpool") k == APos(e) IN     \* (the pool actually passed: the account-substitution probes pass another one)
+          /\ Wider("W1.plain_open_only_without_requirement", e.name = "open_position_with_token_extensions" \/ ~NTRequired(pre, p))
+          /\ IF e.name = "open_position_with_token_extensions"
+             THEN Wider("W1.position_mint_non_transferable_iff_required", (9 \in MintExts(post, post.pos[k].mint)) <=> NTRequired(pre, p))
+             ELSE TRUE
+          /\ Wider("W2.position_opened_event",
+                   LET E == EvOf(e, "PositionOpened") IN
+                   /\ Cardinality(E) = 1
+                   /\ LET v == e.events[CHOOSE i \in E : TRUE] IN
+                      v.pool = p /\ v.pos = k /\ v.lo = post.pos[k].lo /\ v.up = post.pos[k].up)
+     ELSE TRUE
+  /\ IF e.name = "transfer_locked_position"
+     THEN Wider("W1.non_transferable_position_not_handed_over", 9 \notin MintExts(pre, pre.pos[Id(e, "position")].mint))
+     ELSE TRUE
+  /\ IF e.name = "set_token_badge_attribute"
+     THEN Wider("W1.attribute_change_leaves_pools_alone", ChangedKeys(e.diff, "pool") = {})
+     ELSE TRUE
+  /\ IF e.name \in {"initialize_position_bundle", "initialize_position_bundle_with_metadata"}
+     THEN LET b == Id(e, "position_bundle") m == Id(e, "position_bundle_mint") ta == Id(e, "position_bundle_token_account") IN
+          Wider("W3.bundle_created",
+                /\ b \notin DOMAIN pre.bundle /\ b \in DOMAIN post.bundle
+                /\ post.bundle[b].mint = m /\ post.bundle[b].open = <<>> /\ post.bundle[b].existing = <<>>
+                /\ m \in DOMAIN post.mint /\ post.mint[m].supply \doteq 1 /\ post.mint[m].auth = "none" /\ post.mint[m].decimals = 0
+                /\ ta \in DOMAIN post.tok /\ post.tok[ta].mint = m /\ post.tok[ta].amount \doteq 1 /\ post.tok[ta].owner = Id(e, "position_bundle_owner")
+                /\ ChangedKeys(e.diff, "bundle") = {b} /\ ChangedKeys(e.diff, "pos") = {} /\ ChangedKeys(e.diff, "pool") = {})
+     ELSE TRUE
+  /\ IF ChangedKeys(e.diff, "pos") # {} \/ ChangedKeys(e.diff, "ta") # {} THEN W5State(post) ELSE TRUE
+  /\ IF e.name = "migrate_repurpose_reward_authority_space"
+     THEN LET q == Id(e, "whirlpool") IN
+          /\ Wider("W4.migration_only_of_old_layout", ~pre.pool[q].ext2zero)
+          /\ Wider("W4.migration_clears_the_two_fields_only",
+                   /\ post.pool[q] = [pre.pool[q] EXCEPT !.ext2zero = TRUE, !.ext1rest = TRUE, !.flags = 0]
+                   /\ ChangedKeys(e.diff, "pool") \subseteq {q}
+                   /\ \A sec \in Sections \ {"pool"} : ChangedKeys(e.diff, sec) = {})
+     ELSE TRUE
+
+\* what the wider specification says about a REFUSED instruction
+WiderFailed(pre, e) ==
+  /\ IF e.name = "open_position_with_token_extensions" /\ ~e.probe /\ "wider" \in DOMAIN e.args
+     THEN Wider("W1.token_extensions_open_never_refused_for_the_requirement", FALSE) ELSE TRUE
+  /\ IF e.name = "migrate_repurpose_reward_authority_space" /\ Id(e, "whirlpool") \in DOMAIN pre.pool
+     THEN Wider("W4.migration_refused_only_when_done", pre.pool[Id(e, "whirlpool")].ext2zero) ELSE TRUE
+  /\ IF e.name \in {"open_position", "open_position_with_metadata", "open_bundled_position"} /\ ~e.probe /\ "wider" \in DOMAIN e.args
+     THEN Wider("W1.plain_open_refused_only_for_the_requirement", APool(e) \in DOMAIN pre.pool /\ NTRequired(pre, APool(e))) ELSE TRUE
+
 (* the per-event transition *)
 IxOK(pre, e, post) ==
+  /\ WiderOK(pre, e, post)
   /\ Chk("C20", "sdk_quote", C20Quote(e))
   /\ IF IsSwapName(e.name) THEN Chk("C20", "sdk_user_level_quote", C20QuoteUser(pre, e, post)) ELSE TRUE
   /\ IF e.name \in {"increase_liquidity", "increase_liquidity_v2", "decrease_liquidity", "decrease_liquidity_v2"} THEN Chk("C20", "sdk_liquidity_quote", C20Liquidity(pre, e, post)) ELSE TRUE
@@ -1430,6 +1553,7 @@ C20UserQuoteOnRefusal(e) ==
      (e.err \doteq 6057 \/ e.err \doteq 6038 \/ e.err \doteq 6023 \/ e.err \doteq 6036 \/ e.err \doteq 6037 \/ e.err \doteq 1)
 
 IxFailed(pre, e) ==
+  /\ WiderFailed(pre, e)
   /\ Chk("C20", "sdk_quote_on_failure", C20Quote(e))
   /\ Chk("C20", "sdk_user_level_quote_on_refusal", C20UserQuoteOnRefusal(e))
   /\ Chk("C10", "packaging_failed", C10Pack(pre, e))
@@ -1438,7 +1562,7 @@ IxFailed(pre, e) ==
   /\ Chk("ANY", "must_succeed", ~e.must)
   /\ Chk("ANY", "atomic", EmptyDiff(e.diff))
 
-Init == l = 1 /\ st = [now |-> 0] /\ gh = [seg |-> <<>>, led |-> <<>>, rled |-> <<>>] /\ TLCSet(7, <<"none", "none">>) /\ TLCSet(8, "none") /\ TLCSet(9, <<>>) /\ TLCSet(10, <<>>)
+Init == l = 1 /\ st = [now |-> 0] /\ gh = [seg |-> <<>>, led |-> <<>>, rled |-> <<>>] /\ TLCSet(7, <<"none", "none">>) /\ TLCSet(8, "none") /\ TLCSet(9, <<>>) /\ TLCSet(10, <<>>) /\ TLCSet(11, <<>>)
 
 Next ==
   /\ l <= Len(Rec)
@@ -1487,6 +1611,7 @@ Accepted ==
   LET d == TLCGet("stats").diameter IN
   IF d - 1 = Len(Rec) THEN /\ ("COV" \in Active => PrintT(<<"SITUATIONS", ToJson(TLCGet(9))>>))
                            /\ (TLCGet(10) # <<>> => PrintT(<<"RECORDED", ToJson(TLCGet(10))>>))
+                           /\ (TLCGet(11) # <<>> => PrintT(<<"WIDER", ToJson(TLCGet(11))>>))
   ELSE /\ PrintT(<<"REJECTED", d, TLCGet(7)[1], TLCGet(7)[2], TLCGet(8)>>)
        /\ FALSE
 =============================================================================
